@@ -1,1 +1,759 @@
-//! (stub; see lib.rs for the owner)
+//! Mini-stack: two real rustrtc endpoints (UdpSocket + own read loop -> IceConn -> DtlsTransport
+//! -> SctpTransport + DataChannels) joined by a decrypting man-in-the-middle UDP proxy.
+//!
+//! Owner: SCTP checks (C01, C12, C13).  Public API of rustrtc only (plus the `verif` event sink).
+//!
+//! The proxy learns the record keys from `DtlsState::Connected(SessionCrypto, _)`, opens every
+//! ApplicationData record, parses the SCTP packet with its own reader (own CRC32c), logs what it
+//! saw (`net` events: the wire view used by the C13 rules) and applies a content-addressed fault
+//! schedule: the n-th packet carrying a chunk of a given type in a given direction is dropped,
+//! duplicated at once, taken aside and released after a later packet, or duplicated late.
+//! Handshake records (epoch 0) are forwarded untouched.
+
+use aes_gcm::aead::AeadInPlace;
+use aes_gcm::{Nonce, Tag};
+use bytes::Bytes;
+use parking_lot::Mutex;
+use rustrtc::RtcConfiguration;
+use rustrtc::transports::PacketReceiver;
+use rustrtc::transports::datachannel::{DataChannel, DataChannelConfig};
+use rustrtc::transports::dtls::{self, DtlsState, DtlsTransport};
+use rustrtc::transports::ice::IceSocketWrapper;
+use rustrtc::transports::ice::conn::IceConn;
+use rustrtc::transports::sctp::SctpTransport;
+use serde_json::{Value, json};
+use std::collections::HashMap;
+use std::net::SocketAddr;
+use std::sync::{Arc, Weak};
+use std::time::Duration;
+use tokio::net::UdpSocket;
+use tokio::sync::mpsc;
+use tokio::task::JoinHandle;
+
+// ------------------------------------------------------------------------------------------
+// SCTP reader of the harness (independent of the code under test)
+
+pub const CT_DATA: u8 = 0;
+pub const CT_INIT: u8 = 1;
+pub const CT_INIT_ACK: u8 = 2;
+pub const CT_SACK: u8 = 3;
+pub const CT_HEARTBEAT: u8 = 4;
+pub const CT_HEARTBEAT_ACK: u8 = 5;
+pub const CT_COOKIE_ECHO: u8 = 10;
+pub const CT_COOKIE_ACK: u8 = 11;
+pub const CT_RECONFIG: u8 = 130;
+pub const CT_FORWARD_TSN: u8 = 192;
+
+/// CRC-32C (Castagnoli), bitwise-table implementation, reflected polynomial 0x82F63B78.
+pub fn crc32c(data: &[u8]) -> u32 {
+    static TABLE: std::sync::OnceLock<[u32; 256]> = std::sync::OnceLock::new();
+    let t = TABLE.get_or_init(|| {
+        let mut t = [0u32; 256];
+        for i in 0..256u32 {
+            let mut c = i;
+            for _ in 0..8 {
+                c = if c & 1 != 0 { (c >> 1) ^ 0x82F6_3B78 } else { c >> 1 };
+            }
+            t[i as usize] = c;
+        }
+        t
+    });
+    let mut c = 0xFFFF_FFFFu32;
+    for &b in data {
+        c = t[((c ^ b as u32) & 0xFF) as usize] ^ (c >> 8);
+    }
+    c ^ 0xFFFF_FFFF
+}
+
+#[derive(Clone, Debug, Default)]
+pub struct ChunkView {
+    pub ctype: u8,
+    pub flags: u8,
+    pub len: usize, // chunk length field
+    pub tsn: Option<u32>,
+    pub sid: Option<u16>,
+    pub ssn: Option<u16>,
+    pub ppid: Option<u32>,
+    pub ulen: Option<usize>, // user data length
+    pub cum: Option<u32>,
+    pub rwnd: Option<u32>,
+    pub gaps: Vec<(u16, u16)>,
+    pub itag: Option<u32>,
+    pub itsn: Option<u32>,
+}
+
+impl ChunkView {
+    pub fn to_json(&self) -> Value {
+        let mut m = serde_json::Map::new();
+        m.insert("type".into(), self.ctype.into());
+        m.insert("flags".into(), self.flags.into());
+        m.insert("len".into(), self.len.into());
+        if let Some(v) = self.tsn {
+            m.insert("tsn".into(), v.into());
+        }
+        if let Some(v) = self.sid {
+            m.insert("sid".into(), v.into());
+        }
+        if let Some(v) = self.ssn {
+            m.insert("ssn".into(), v.into());
+        }
+        if let Some(v) = self.ppid {
+            m.insert("ppid".into(), v.into());
+        }
+        if let Some(v) = self.ulen {
+            m.insert("ulen".into(), v.into());
+        }
+        if let Some(v) = self.cum {
+            m.insert("cum".into(), v.into());
+        }
+        if let Some(v) = self.rwnd {
+            m.insert("rwnd".into(), v.into());
+        }
+        if self.ctype == CT_SACK {
+            m.insert(
+                "gaps".into(),
+                self.gaps.iter().map(|(a, b)| json!([a, b])).collect::<Vec<_>>().into(),
+            );
+        }
+        if let Some(v) = self.itag {
+            m.insert("itag".into(), v.into());
+        }
+        if let Some(v) = self.itsn {
+            m.insert("itsn".into(), v.into());
+        }
+        Value::Object(m)
+    }
+}
+
+#[derive(Clone, Debug, Default)]
+pub struct PacketView {
+    pub len: usize,
+    pub sport: u16,
+    pub dport: u16,
+    pub vtag: u32,
+    pub crc_ok: bool,
+    pub well_formed: bool, // chunk lengths add up exactly
+    pub chunks: Vec<ChunkView>,
+}
+
+pub fn parse_sctp(p: &[u8]) -> PacketView {
+    let mut v = PacketView { len: p.len(), ..Default::default() };
+    if p.len() < 12 {
+        return v;
+    }
+    v.sport = u16::from_be_bytes([p[0], p[1]]);
+    v.dport = u16::from_be_bytes([p[2], p[3]]);
+    v.vtag = u32::from_be_bytes([p[4], p[5], p[6], p[7]]);
+    let stored = u32::from_le_bytes([p[8], p[9], p[10], p[11]]);
+    let mut z = p.to_vec();
+    z[8..12].fill(0);
+    v.crc_ok = crc32c(&z) == stored;
+    let be32 = |b: &[u8], o: usize| u32::from_be_bytes([b[o], b[o + 1], b[o + 2], b[o + 3]]);
+    let be16 = |b: &[u8], o: usize| u16::from_be_bytes([b[o], b[o + 1]]);
+    let mut o = 12;
+    v.well_formed = true;
+    while o < p.len() {
+        if p.len() < o + 4 {
+            v.well_formed = false;
+            break;
+        }
+        let ctype = p[o];
+        let flags = p[o + 1];
+        let l = be16(p, o + 2) as usize;
+        if l < 4 || p.len() < o + l {
+            v.well_formed = false;
+            break;
+        }
+        let b = &p[o + 4..o + l];
+        let mut c = ChunkView { ctype, flags, len: l, ..Default::default() };
+        match ctype {
+            CT_DATA if b.len() >= 12 => {
+                c.tsn = Some(be32(b, 0));
+                c.sid = Some(be16(b, 4));
+                c.ssn = Some(be16(b, 6));
+                c.ppid = Some(be32(b, 8));
+                c.ulen = Some(b.len() - 12);
+            }
+            CT_SACK if b.len() >= 12 => {
+                c.cum = Some(be32(b, 0));
+                c.rwnd = Some(be32(b, 4));
+                let ng = be16(b, 8) as usize;
+                for i in 0..ng {
+                    let q = 12 + 4 * i;
+                    if b.len() < q + 4 {
+                        break;
+                    }
+                    c.gaps.push((be16(b, q), be16(b, q + 2)));
+                }
+            }
+            CT_INIT | CT_INIT_ACK if b.len() >= 16 => {
+                c.itag = Some(be32(b, 0));
+                c.rwnd = Some(be32(b, 4));
+                c.itsn = Some(be32(b, 12));
+            }
+            CT_FORWARD_TSN if b.len() >= 4 => {
+                c.cum = Some(be32(b, 0));
+            }
+            _ => {}
+        }
+        v.chunks.push(c);
+        o += l + (4 - (l % 4)) % 4;
+    }
+    // every chunk, the last one included, is padded to a multiple of four bytes
+    if v.well_formed {
+        v.well_formed = o == p.len();
+    }
+    v
+}
+
+// ------------------------------------------------------------------------------------------
+// Fault schedule
+
+#[derive(Clone, Debug, PartialEq)]
+pub enum FaultKind {
+    Drop,
+    Dup,
+    Hold,
+    DupLate,
+}
+
+#[derive(Clone, Debug)]
+pub struct Fault {
+    pub dir: char, // sender side: 'A' (A>B) or 'B' (B>A)
+    pub ctype: u8,
+    pub ord: u32, // n-th packet of that direction carrying a chunk of `ctype` (1-based)
+    pub kind: FaultKind,
+    pub after: Option<(u8, u32)>, // release the copy right after this packet of the same direction
+    pub used: bool,
+}
+
+pub fn ctype_of(name: &str) -> u8 {
+    match name {
+        "DATA" => CT_DATA,
+        "INIT" => CT_INIT,
+        "IACK" => CT_INIT_ACK,
+        "SACK" => CT_SACK,
+        "HB" => CT_HEARTBEAT,
+        "HBACK" => CT_HEARTBEAT_ACK,
+        "CECHO" => CT_COOKIE_ECHO,
+        "CACK" => CT_COOKIE_ACK,
+        "RECONFIG" => CT_RECONFIG,
+        "FWD" => CT_FORWARD_TSN,
+        other => other.parse::<u8>().unwrap_or_else(|_| panic!("bad chunk type {other}")),
+    }
+}
+
+/// `{"dir":"A","k":"INIT","o":1,"kind":"duplate","ak":"DATA","ao":1}` (TLC's FaultRec)
+pub fn fault_from_json(v: &Value) -> Fault {
+    let kind = match v["kind"].as_str().unwrap_or("") {
+        "drop" => FaultKind::Drop,
+        "dup" => FaultKind::Dup,
+        "hold" => FaultKind::Hold,
+        "duplate" => FaultKind::DupLate,
+        k => panic!("bad fault kind {k}"),
+    };
+    let after = match v["ak"].as_str() {
+        Some("NONE") | None => None,
+        Some(k) => Some((ctype_of(k), v["ao"].as_u64().unwrap_or(0) as u32)),
+    };
+    Fault {
+        dir: v["dir"].as_str().unwrap().chars().next().unwrap(),
+        ctype: ctype_of(v["k"].as_str().unwrap()),
+        ord: v["o"].as_u64().unwrap() as u32,
+        kind,
+        after,
+        used: false,
+    }
+}
+
+struct Held {
+    fault_idx: usize,
+    datagram: Vec<u8>,
+    view: Value,
+    dir: char,
+    after: Option<(u8, u32)>,
+}
+
+struct ProxyState {
+    faults: Vec<Fault>,
+    cnt: HashMap<(char, u8), u32>,
+    held: Vec<Held>,
+    next_id: u64,
+    faults_applied: u32,
+}
+
+pub struct Proxy {
+    pa: Arc<UdpSocket>, // faces endpoint A
+    pb: Arc<UdpSocket>, // faces endpoint B
+    addr_a: SocketAddr,
+    addr_b: SocketAddr,
+    state: Mutex<ProxyState>,
+    dtls_a: Mutex<Option<Arc<DtlsTransport>>>,
+    dtls_b: Mutex<Option<Arc<DtlsTransport>>>,
+    max_hold: Duration,
+}
+
+impl Proxy {
+    fn crypto(&self) -> Option<Arc<dtls::SessionCrypto>> {
+        for d in [&self.dtls_a, &self.dtls_b] {
+            if let Some(t) = d.lock().as_ref()
+                && let DtlsState::Connected(c, _) = t.get_state()
+            {
+                return Some(c);
+            }
+        }
+        None
+    }
+
+    /// Open one ApplicationData record sent by side `from` (A = DTLS client).
+    fn open_record(&self, from: char, rec: &[u8]) -> Option<Vec<u8>> {
+        if rec.len() < 13 + 8 + 16 || rec[0] != 23 {
+            return None;
+        }
+        let epoch = u16::from_be_bytes([rec[3], rec[4]]);
+        if epoch == 0 {
+            return None;
+        }
+        let reclen = u16::from_be_bytes([rec[11], rec[12]]) as usize;
+        if rec.len() < 13 + reclen || reclen < 24 {
+            return None;
+        }
+        let crypto = self.crypto()?;
+        let (cipher, iv) = if from == 'A' {
+            (&crypto.client_write_cipher, &crypto.keys.client_write_iv)
+        } else {
+            (&crypto.server_write_cipher, &crypto.keys.server_write_iv)
+        };
+        let body = &rec[13..13 + reclen];
+        let explicit = &body[..8];
+        let ct = &body[8..reclen - 16];
+        let tag = &body[reclen - 16..];
+        let mut nonce = [0u8; 12];
+        nonce[..4].copy_from_slice(iv);
+        nonce[4..].copy_from_slice(explicit);
+        let mut aad = [0u8; 13];
+        aad[..8].copy_from_slice(&rec[3..11]); // epoch + 48-bit sequence number
+        aad[8] = rec[0];
+        aad[9] = rec[1];
+        aad[10] = rec[2];
+        aad[11..13].copy_from_slice(&(ct.len() as u16).to_be_bytes());
+        let mut pt = ct.to_vec();
+        cipher
+            .decrypt_in_place_detached(Nonce::from_slice(&nonce), &aad, &mut pt, Tag::from_slice(tag))
+            .ok()?;
+        Some(pt)
+    }
+
+    async fn forward(&self, dir: char, datagram: &[u8]) {
+        let (sock, to) = if dir == 'A' { (&self.pb, self.addr_b) } else { (&self.pa, self.addr_a) };
+        let _ = sock.send_to(datagram, to).await;
+    }
+
+    pub fn faults_pending(&self) -> usize {
+        let st = self.state.lock();
+        st.faults.iter().filter(|f| !f.used).count() + st.held.len()
+    }
+    pub fn held_count(&self) -> usize {
+        self.state.lock().held.len()
+    }
+    pub fn faults_applied(&self) -> u32 {
+        self.state.lock().faults_applied
+    }
+
+    /// Release everything still held (end of the fault phase).
+    pub async fn flush(&self) {
+        let held: Vec<Held> = std::mem::take(&mut self.state.lock().held);
+        for h in held {
+            self.emit_net(h.dir, "release", &h.view, Some(h.fault_idx), Some("flush"));
+            self.forward(h.dir, &h.datagram).await;
+        }
+    }
+
+    fn emit_net(&self, dir: char, act: &'static str, view: &Value, fault: Option<usize>, why: Option<&str>) {
+        let mut m = view.as_object().cloned().unwrap_or_default();
+        m.insert("dir".into(), dir.to_string().into());
+        m.insert("act".into(), act.into());
+        if let Some(f) = fault {
+            m.insert("fault".into(), f.into());
+        }
+        if let Some(w) = why {
+            m.insert("why".into(), w.into());
+        }
+        rustrtc::verif::emit("net", "P", "pkt", Value::Object(m));
+    }
+
+    async fn handle(self: &Arc<Self>, dir: char, datagram: Vec<u8>) {
+        let Some(pt) = self.open_record(dir, &datagram) else {
+            // handshake / alert / undecipherable: not a fault target
+            self.forward(dir, &datagram).await;
+            return;
+        };
+        let pv = parse_sctp(&pt);
+        let mut types: Vec<u8> = pv.chunks.iter().map(|c| c.ctype).collect();
+        types.sort();
+        types.dedup();
+        // decide under the lock, act after releasing it
+        let (view, action, fault_idx, releases) = {
+            let mut st = self.state.lock();
+            st.next_id += 1;
+            let id = st.next_id;
+            let mut ords = serde_json::Map::new();
+            for t in &types {
+                let c = st.cnt.entry((dir, *t)).or_insert(0);
+                *c += 1;
+                ords.insert(t.to_string(), (*c).into());
+            }
+            let view = json!({
+                "id": id, "len": pv.len, "crc_ok": pv.crc_ok, "well_formed": pv.well_formed,
+                "vtag": pv.vtag, "sport": pv.sport, "dport": pv.dport, "ord": ords,
+                "chunks": pv.chunks.iter().map(|c| c.to_json()).collect::<Vec<_>>(),
+            });
+            let mut hit = None;
+            for (i, f) in st.faults.iter().enumerate() {
+                if !f.used && f.dir == dir && types.contains(&f.ctype) && st.cnt[&(dir, f.ctype)] == f.ord {
+                    hit = Some(i);
+                    break;
+                }
+            }
+            let mut action = "fwd";
+            if let Some(i) = hit {
+                st.faults[i].used = true;
+                st.faults_applied += 1;
+                let f = st.faults[i].clone();
+                action = match f.kind {
+                    FaultKind::Drop => "drop",
+                    FaultKind::Dup => "dup",
+                    FaultKind::Hold => "hold",
+                    FaultKind::DupLate => "duplate",
+                };
+                if matches!(f.kind, FaultKind::Hold | FaultKind::DupLate) {
+                    st.held.push(Held { fault_idx: i, datagram: datagram.clone(), view: view.clone(), dir, after: f.after });
+                }
+            }
+            // packets taken aside earlier whose release point is this packet (it is forwarded first)
+            let mut releases = Vec::new();
+            if action != "drop" && action != "hold" {
+                let mut k = 0;
+                while k < st.held.len() {
+                    let h = &st.held[k];
+                    let is_self = hit == Some(h.fault_idx);
+                    let due = match h.after {
+                        Some((t, o)) => h.dir == dir && types.contains(&t) && st.cnt[&(dir, t)] == o,
+                        None => false,
+                    };
+                    if due && !is_self {
+                        releases.push(st.held.remove(k));
+                    } else {
+                        k += 1;
+                    }
+                }
+            }
+            (view, action, hit, releases)
+        };
+        self.emit_net(dir, action, &view, fault_idx, None);
+        match action {
+            "fwd" | "duplate" => self.forward(dir, &datagram).await,
+            "dup" => {
+                self.forward(dir, &datagram).await;
+                self.emit_net(dir, "dupcopy", &view, fault_idx, None);
+                self.forward(dir, &datagram).await;
+            }
+            _ => {}
+        }
+        if matches!(action, "hold" | "duplate") {
+            // safety net: a release point that never comes must not turn a delay into a loss
+            let me = self.clone();
+            let idx = fault_idx.unwrap();
+            let max_hold = self.max_hold;
+            tokio::spawn(async move {
+                tokio::time::sleep(max_hold).await;
+                let h = {
+                    let mut st = me.state.lock();
+                    st.held.iter().position(|h| h.fault_idx == idx).map(|p| st.held.remove(p))
+                };
+                if let Some(h) = h {
+                    me.emit_net(h.dir, "release", &h.view, Some(h.fault_idx), Some("timeout"));
+                    me.forward(h.dir, &h.datagram).await;
+                }
+            });
+        }
+        for h in releases {
+            self.emit_net(h.dir, "release", &h.view, Some(h.fault_idx), Some("after"));
+            self.forward(h.dir, &h.datagram).await;
+        }
+    }
+}
+
+// ------------------------------------------------------------------------------------------
+// Endpoints
+
+#[derive(Clone, Debug)]
+pub struct StackCfg {
+    pub rto_initial_ms: u64,
+    pub rto_min_ms: u64,
+    pub rto_max_ms: u64,
+    pub rwnd: usize,
+    pub max_burst: usize,
+    pub max_cwnd: usize,
+    pub max_buffered: usize,
+    pub max_tsn_retransmits: u32,
+    pub heartbeat_ms: u64,
+    pub init_tsn_a: Option<u32>,
+    pub init_tsn_b: Option<u32>,
+    pub max_hold_ms: u64,
+}
+
+impl Default for StackCfg {
+    fn default() -> Self {
+        Self {
+            rto_initial_ms: 50,
+            rto_min_ms: 50,
+            rto_max_ms: 400,
+            rwnd: 128 * 1024,
+            max_burst: 0,
+            max_cwnd: 256 * 1024,
+            max_buffered: 256 * 1024,
+            max_tsn_retransmits: 8,
+            heartbeat_ms: 15_000,
+            init_tsn_a: None,
+            init_tsn_b: None,
+            max_hold_ms: 300,
+        }
+    }
+}
+
+impl StackCfg {
+    pub fn from_json(v: &Value) -> Self {
+        let mut c = Self::default();
+        let u = |k: &str| v.get(k).and_then(|x| x.as_u64());
+        if let Some(x) = u("rto_initial_ms") {
+            c.rto_initial_ms = x;
+        }
+        if let Some(x) = u("rto_min_ms") {
+            c.rto_min_ms = x;
+        }
+        if let Some(x) = u("rto_max_ms") {
+            c.rto_max_ms = x;
+        }
+        if let Some(x) = u("rwnd") {
+            c.rwnd = x as usize;
+        }
+        if let Some(x) = u("max_burst") {
+            c.max_burst = x as usize;
+        }
+        if let Some(x) = u("max_cwnd") {
+            c.max_cwnd = x as usize;
+        }
+        if let Some(x) = u("max_buffered") {
+            c.max_buffered = x as usize;
+        }
+        if let Some(x) = u("max_tsn_retransmits") {
+            c.max_tsn_retransmits = x as u32;
+        }
+        if let Some(x) = u("heartbeat_ms") {
+            c.heartbeat_ms = x;
+        }
+        if let Some(x) = u("init_tsn_a") {
+            c.init_tsn_a = Some(x as u32);
+        }
+        if let Some(x) = u("init_tsn_b") {
+            c.init_tsn_b = Some(x as u32);
+        }
+        if let Some(x) = u("max_hold_ms") {
+            c.max_hold_ms = x;
+        }
+        c
+    }
+
+    pub fn rtc(&self, label: &str) -> RtcConfiguration {
+        let mut c = RtcConfiguration::default();
+        c.label = Some(label.to_string());
+        c.sctp_rto_initial = Duration::from_millis(self.rto_initial_ms);
+        c.sctp_rto_min = Duration::from_millis(self.rto_min_ms);
+        c.sctp_rto_max = Duration::from_millis(self.rto_max_ms);
+        c.sctp_receive_window = self.rwnd;
+        c.sctp_max_burst = self.max_burst;
+        c.sctp_max_cwnd = self.max_cwnd;
+        c.sctp_max_buffered_amount = self.max_buffered;
+        c.sctp_max_tsn_retransmits = self.max_tsn_retransmits;
+        c.sctp_heartbeat_interval = Duration::from_millis(self.heartbeat_ms);
+        c
+    }
+}
+
+#[derive(Clone, Debug)]
+pub struct ChanSpec {
+    pub sid: u16,
+    pub ordered: bool,
+    pub max_retransmits: Option<u16>,
+    pub max_life_ms: Option<u16>,
+    pub negotiated: bool,
+    pub creator: char, // for in-band channels: which side creates it and sends DCEP OPEN
+    pub label: String,
+    pub protocol: String,
+}
+
+impl ChanSpec {
+    pub fn from_json(v: &Value) -> Self {
+        Self {
+            sid: v["sid"].as_u64().unwrap() as u16,
+            ordered: v["ordered"].as_bool().unwrap_or(true),
+            max_retransmits: v.get("max_retransmits").and_then(|x| x.as_u64()).map(|x| x as u16),
+            max_life_ms: v.get("max_life_ms").and_then(|x| x.as_u64()).map(|x| x as u16),
+            negotiated: v["negotiated"].as_bool().unwrap_or(true),
+            creator: v.get("creator").and_then(|x| x.as_str()).and_then(|s| s.chars().next()).unwrap_or('A'),
+            label: v.get("label").and_then(|x| x.as_str()).unwrap_or("").to_string(),
+            protocol: v.get("protocol").and_then(|x| x.as_str()).unwrap_or("").to_string(),
+        }
+    }
+    pub fn config(&self) -> DataChannelConfig {
+        DataChannelConfig {
+            label: self.label.clone(),
+            protocol: self.protocol.clone(),
+            ordered: self.ordered,
+            max_retransmits: self.max_retransmits,
+            max_packet_life_time: self.max_life_ms,
+            max_payload_size: None,
+            negotiated: if self.negotiated { Some(self.sid) } else { None },
+        }
+    }
+}
+
+pub struct Endpoint {
+    pub name: char,
+    pub sock: Arc<UdpSocket>,
+    pub conn: Arc<IceConn>,
+    pub dtls: Arc<DtlsTransport>,
+    pub sctp: Arc<SctpTransport>,
+    pub chans: Arc<Mutex<Vec<Weak<DataChannel>>>>,
+    pub local: Vec<Arc<DataChannel>>, // channels created locally (negotiated, or in-band by this side)
+    pub new_dc_rx: Option<mpsc::UnboundedReceiver<Arc<DataChannel>>>,
+    pub tasks: Vec<JoinHandle<()>>,
+}
+
+pub struct Pair {
+    pub a: Endpoint,
+    pub b: Endpoint,
+    pub proxy: Arc<Proxy>,
+    pub proxy_tasks: Vec<JoinHandle<()>>,
+}
+
+impl Pair {
+    pub fn ep(&self, name: char) -> &Endpoint {
+        if name == 'A' { &self.a } else { &self.b }
+    }
+    pub fn ep_mut(&mut self, name: char) -> &mut Endpoint {
+        if name == 'A' { &mut self.a } else { &mut self.b }
+    }
+    /// Stop every task of the pair.
+    pub fn shutdown(&mut self) {
+        self.a.sctp.close();
+        self.b.sctp.close();
+        self.a.dtls.close();
+        self.b.dtls.close();
+        for t in self.a.tasks.drain(..).chain(self.b.tasks.drain(..)).chain(self.proxy_tasks.drain(..)) {
+            t.abort();
+        }
+    }
+}
+
+async fn bind() -> Arc<UdpSocket> {
+    Arc::new(UdpSocket::bind("127.0.0.1:0").await.expect("bind loopback"))
+}
+
+async fn build_endpoint(
+    name: char,
+    sock: Arc<UdpSocket>,
+    remote: SocketAddr,
+    cert: dtls::Certificate,
+    peer_fp: String,
+    cfg: &StackCfg,
+    chans: &[ChanSpec],
+) -> Endpoint {
+    let is_client = name == 'A';
+    let (_sock_tx, sock_rx) = tokio::sync::watch::channel(Some(IceSocketWrapper::Udp(sock.clone())));
+    // keep the sender alive for the lifetime of the endpoint (a closed watch still yields its value,
+    // but do not depend on that)
+    let sock_tx_keep = _sock_tx;
+    let conn = IceConn::new(sock_rx, remote, Some(name.to_string()));
+    let (dtls, incoming_rx, dtls_runner) = DtlsTransport::new(conn.clone(), cert, is_client, 2048, Some(peer_fp))
+        .await
+        .expect("DtlsTransport::new");
+    let mut tasks = Vec::new();
+    // The DTLS receiver is registered inside DtlsTransport::new: only now may the socket loop start.
+    tasks.push(tokio::spawn(dtls_runner));
+    {
+        let sock = sock.clone();
+        let conn = conn.clone();
+        tasks.push(tokio::spawn(async move {
+            let _keep = sock_tx_keep;
+            let mut buf = vec![0u8; 4096];
+            let mut marshal = Vec::new();
+            loop {
+                match sock.recv_from(&mut buf).await {
+                    Ok((n, from)) => {
+                        conn.receive(Bytes::copy_from_slice(&buf[..n]), from, &mut marshal).await;
+                    }
+                    Err(_) => break,
+                }
+            }
+        }));
+    }
+    let list: Arc<Mutex<Vec<Weak<DataChannel>>>> = Arc::new(Mutex::new(Vec::new()));
+    let mut local = Vec::new();
+    for c in chans {
+        if c.negotiated || c.creator == name {
+            let dc = Arc::new(DataChannel::new(c.sid, c.config()));
+            list.lock().push(Arc::downgrade(&dc));
+            local.push(dc);
+        }
+    }
+    let (dc_tx, dc_rx) = mpsc::unbounded_channel();
+    let rtc = cfg.rtc(&name.to_string());
+    let (sctp, runner) = SctpTransport::new(dtls.clone(), incoming_rx, list.clone(), 5000, 5000, Some(dc_tx), is_client, &rtc);
+    tasks.push(tokio::spawn(runner));
+    Endpoint { name, sock, conn, dtls, sctp, chans: list, local, new_dc_rx: Some(dc_rx), tasks }
+}
+
+/// Build A (DTLS/SCTP client) and B (server) joined by the proxy; the association starts at once.
+pub async fn build_pair(cfg: &StackCfg, chans: &[ChanSpec], faults: Vec<Fault>) -> Pair {
+    rustrtc::verif::set_override("sctp_initial_tsn_client", cfg.init_tsn_a.map(|v| v as i64));
+    rustrtc::verif::set_override("sctp_initial_tsn_server", cfg.init_tsn_b.map(|v| v as i64));
+    let sa = bind().await;
+    let sb = bind().await;
+    let pa = bind().await;
+    let pb = bind().await;
+    let proxy = Arc::new(Proxy {
+        pa: pa.clone(),
+        pb: pb.clone(),
+        addr_a: sa.local_addr().unwrap(),
+        addr_b: sb.local_addr().unwrap(),
+        state: Mutex::new(ProxyState { faults, cnt: HashMap::new(), held: Vec::new(), next_id: 0, faults_applied: 0 }),
+        dtls_a: Mutex::new(None),
+        dtls_b: Mutex::new(None),
+        max_hold: Duration::from_millis(cfg.max_hold_ms),
+    });
+    let mut proxy_tasks = Vec::new();
+    for (dir, sock) in [('A', pa.clone()), ('B', pb.clone())] {
+        let p = proxy.clone();
+        proxy_tasks.push(tokio::spawn(async move {
+            let mut buf = vec![0u8; 4096];
+            loop {
+                match sock.recv_from(&mut buf).await {
+                    Ok((n, _)) => p.handle(dir, buf[..n].to_vec()).await,
+                    Err(_) => break,
+                }
+            }
+        }));
+    }
+    let cert_a = dtls::generate_certificate().expect("cert");
+    let cert_b = dtls::generate_certificate().expect("cert");
+    let fp_a = dtls::fingerprint(&cert_a);
+    let fp_b = dtls::fingerprint(&cert_b);
+    // server first so that it is listening when the client's first flight arrives
+    let b = build_endpoint('B', sb, pb.local_addr().unwrap(), cert_b, fp_a, cfg, chans).await;
+    let a = build_endpoint('A', sa, pa.local_addr().unwrap(), cert_a, fp_b, cfg, chans).await;
+    *proxy.dtls_a.lock() = Some(a.dtls.clone());
+    *proxy.dtls_b.lock() = Some(b.dtls.clone());
+    Pair { a, b, proxy, proxy_tasks }
+}
